@@ -428,6 +428,19 @@ func (s *levelsController) levelTargets() targets {
 		t.baseLevel++
 	}
 
+	// The base level must never lie below a level that holds tables: L0 is compacted straight
+	// into the base level, so data in a skipped level (older than L0, by construction) would be
+	// bypassed. A tombstone or a newer version would then sit below the older version it
+	// shadows, and the tombstone could even be dropped because nothing below the base level
+	// overlaps it. This happens when the last level shrinks (DropPrefix) after the tree had
+	// grown enough for an upper level to become the base level.
+	for i := 1; i < t.baseLevel; i++ {
+		if s.levels[i].getTotalSize() > 0 {
+			t.baseLevel = i
+			break
+		}
+	}
+
 	// The base level must never be L0. For a very large LSM tree the size loop
 	// above can fail to assign a base level: it only sets baseLevel where
 	// adjust(dbSize) <= BaseLevelSize, and the smallest level it checks (L1)
